@@ -7,21 +7,19 @@ from engine.loader import AnalysisError
 from . import wrapper as W
 
 META = {
-    'text': 'Static typestate and ownership rules for the visited set: (a) in the wrapper every registered printer '
-            'runs under, the visited test precedes the acquire, the recursion marker is returned only under the '
-            'positive test, and on every path from the acquire to any exit - normal returns and every exceptional '
-            'exit an enclosing "except Exception" could catch - exactly one release of the same value occurs '
-            '(structured dataflow over try/except/finally); (b) the set holds id(value), only the three context '
-            'methods touch it, derived contexts share the same set object; (c) the top-level context gets a '
-            'freshly created set and the constructor has no mutable default; (d) every registration wraps the '
-            'printer, direct printer-to-printer calls bypass the wrapper only for leaf (str/bytes) printers; '
-            '(e) child-printing generators are consumed inside the window and no core printer prints from inside '
-            'a contextual evaluator. Necessary conditions for "marker exactly at back-references and no residue"; '
-            'the marker text and graphs through user types are NOT decided.',
-    'note': 'trusts that set.add/remove on ids do not raise; calls other than a few total builtins are assumed able '
-            'to raise any Exception (that is what makes the unreleased-exit rule bite)',
-    'technique': 'static analysis: typestate (acquire/release counting) by structured forward dataflow with '
-                 'exceptional edges; who-may-write inventory; guard facts',
+    'text': 'python_to_sdocs, pretty_python_value, the wrapper, the context class and the recursion marker are interpreted '
+            '(no execution) on small object graphs - shared sub-values, self loops, two- and three-node cycles with chords,'
+            ' cycles through trailing-commented references, instances of built-in containers and of subclasses of atomic ty'
+            'pes occurring several times - with printers as opaque behaviours: a value is replaced by the marker exactly wh'
+            'en it is being printed higher up on the same path, everything else prints in full, nothing stays marked afterw'
+            'ards (a); the context class interpreted: the visited set is shared by all derived contexts, keyed by id(value)'
+            ', created per top-level call, and nobody but the class and the entry point builds a context or calls its priva'
+            'te copier (b,c); visit pairing on every path of the wrapper incl. exceptions (typestate) and who-may-touch on '
+            'the visited set.',
+    'note': 'trusts that set.add/remove on ids do not raise; calls other than a few total builtins are assumed able to rais'
+            'e any Exception (that is what makes the unreleased-exit rule bite)',
+    'technique': 'static analysis: abstract interpretation of the wrapper pipeline on small-scope object graphs; typestate dataf'
+                 'low; who-may-call',
 }
 
 LEAF_KEYS = {'str', 'bytes', 'int', 'float', 'bool', 'type(None)', 'type(...)'}
